@@ -39,6 +39,8 @@ def policy_sites(f, fx):
 def run(ctx):
     for config in ctx.configs:
         fx = ctx.facts(config)
+        from .C16 import rule_locate_once
+        rule_locate_once(ctx, fx, config, prop="C04")
         f = fx.fn(NKS)
         ctx.saw(f)
         sites = policy_sites(f, fx)
